@@ -3,7 +3,7 @@
    Power cut after the k-th state-changing command = the tag has executed the first k WRITE commands of the
    write (firstn k) and nothing else; the observer is a fresh reader of that memory. *)
 From Coq Require Import ZArith List Bool.
-From NV Require Import Base.Result Base.Bytes Model.TlvMem Model.T2T Model.T1T Proofs.TlvLib Proofs.TlvPhases Proofs.T2TCut Proofs.T1T.
+From NV Require Import Base.Result Base.Bytes Model.TlvMem Model.T2T Model.T1T Proofs.TlvLib Proofs.TlvPhases Proofs.T2TPhases Proofs.T2TCut Proofs.T2TRetry Proofs.T1T Proofs.T1TRetry.
 Import ListNotations.
 Open Scope Z_scope.
 
@@ -77,3 +77,56 @@ Example C02_t1_nonvacuous :
   length (snd (t1_write 18 ex_t1_cut_mem [1;2;3])) = 3%nat /\
   t1_fresh 18 (apply_ws ex_t1_cut_mem (firstn 2 (snd (t1_write 18 ex_t1_cut_mem [1;2;3])))) = Msg [].
 Proof. split; [vm_compute; reflexivity|]. split; [eexists; split; vm_compute; reflexivity|]. split; vm_compute; reflexivity. Qed.
+
+(* ---------------------------------------------------------------- several attempts on one tag object (Type 2).
+   t2_reader_ok m d (m1, F, c): tag memory m1, data_from_tag F, data_in_cache c are a state the reader of a tag object
+   activated on memory m can be in while d is being assigned (Proofs/TlvRetry.v INV: every write unit of the tag holds
+   what the reader believes or what the cache holds - or the new message is already complete; the length byte on the
+   tag is the old one with nothing else written, or 0, or the message is complete).
+   It holds initially and is preserved by EVERY attempt, whatever command fails (kf) and however (f: lost, or executed
+   with the response lost), hence after any number of failed attempts; all tag memories on the way are safe. *)
+Theorem C02_t2_reader_ok_init : forall m d cap, wf_layout m -> t2_capacity m = Some cap -> len d <= cap ->
+  t2_reader_ok m d (m, view m, view m).
+Proof. exact t2_reader_ok_init. Qed.
+Print Assumptions C02_t2_reader_ok_init.
+
+Theorem C02_t2_reader_ok_preserved : forall m d L m1 F c kf f, wfL m L -> t2_reader_ok m d (m1, F, c) ->
+  let '(r, st', ex) := t2_attempt m1 L F c d kf f in
+  t2_reader_ok m d st' /\ fst (fst st') = apply_ws m1 ex /\
+  (forall i, safe_class m d (apply_ws m1 (firstn i ex))) /\
+  (r = Ok tt -> t2_fresh (fst (fst st')) = Msg d /\ t2_capacity (fst (fst st')) = Some (l_cap L)) /\ (kf = None -> r = Ok tt).
+Proof. exact t2_attempt_reader_ok. Qed.
+Print Assumptions C02_t2_reader_ok_preserved.
+
+(* after any list of failed attempts, the next attempt - cut after k2 commands, or failing again at command kf with fate f -
+   leaves the previous message, an empty message or the new message for a fresh reader (safe_class), at every point *)
+Theorem C02_t2_retry_cut_safe : forall m d cap faults kf f, wf_layout m -> t2_capacity m = Some cap -> len d <= cap ->
+  exists L m1 F c, t2_after m d faults = Some (L, (m1, F, c)) /\ safe_class m d m1 /\
+    forall k2, safe_class m d (apply_ws m1 (firstn k2 (snd (t2_attempt m1 L F c d kf f)))).
+Proof. exact t2_retry_cut_safe. Qed.
+Print Assumptions C02_t2_retry_cut_safe.
+
+(* non-vacuity: 300 bytes onto the layout with the NDEF TLV at byte 17; first attempt: the commit command (80th) is executed
+   but not answered, second attempt: its first command is lost; the third attempt is cut after one command *)
+Example C02_t2_retry_nonvacuous :
+  exists L m1 F c, t2_after ex_cut_mem ex_cut_new [(80%nat, Unanswered); (1%nat, Lost)] = Some (L, (m1, F, c)) /\
+    t2_fresh m1 = Msg ex_cut_new /\ F <> c /\
+    length (snd (t2_attempt m1 L F c ex_cut_new None Lost)) = 1%nat.
+Proof. eexists. eexists. eexists. eexists. split; [vm_compute; reflexivity|]. split; [vm_compute; reflexivity|].
+  split; [vm_compute; discriminate | vm_compute; reflexivity]. Qed.
+
+(* Type 1: invariant and retry safety under the same guard as C02_t1_cut_safe_guarded *)
+Theorem C02_t1_reader_ok_preserved : forall hr0 m d L m1 F c kf f, wfL1 hr0 m L -> t1_reader_ok hr0 m d (m1, F, c) ->
+  let '(r, st', ex) := t1_attempt hr0 m1 L F c d kf f in
+  t1_reader_ok hr0 m d st' /\ fst (fst st') = apply_ws m1 ex /\
+  (forall i, t1_safe_class hr0 m d (apply_ws m1 (firstn i ex))) /\
+  (r = Ok tt -> t1_fresh hr0 (fst (fst st')) = Msg d /\ t1_capacity hr0 (fst (fst st')) = Some (l_cap L)) /\ (kf = None -> r = Ok tt).
+Proof. exact t1_attempt_reader_ok. Qed.
+Print Assumptions C02_t1_reader_ok_preserved.
+
+Theorem C02_t1_retry_cut_safe_guarded : forall hr0 m d cap L faults kf f, t1_wf_layout hr0 m -> t1_capacity hr0 m = Some cap -> len d <= cap ->
+  t1_layout hr0 m = Some L -> t1_guard hr0 L d ->
+  exists m1 F c, t1_after hr0 m d faults = Some (L, (m1, F, c)) /\ t1_safe_class hr0 m d m1 /\
+    forall k2, t1_safe_class hr0 m d (apply_ws m1 (firstn k2 (snd (t1_attempt hr0 m1 L F c d kf f)))).
+Proof. exact t1_retry_cut_safe. Qed.
+Print Assumptions C02_t1_retry_cut_safe_guarded.
